@@ -10,6 +10,10 @@
 (*                                           time ctime bigint pbigint     *)
 (*                                           bigfloat apd dfloat url uid   *)
 (*                                           media iface                   *)
+(*                                           node edge (types.Node: a      *)
+(*                                           value and two children;       *)
+(*                                           types.Edge: source,           *)
+(*                                           description, destination)     *)
 (*   [k |-> "slice", e |-> T]   [k |-> "array", e |-> T]                   *)
 (*   [k |-> "map", key |-> K, e |-> T]       [k |-> "ptr", e |-> T]        *)
 (*   [k |-> "struct", fields |-> << T1, T2 >>]   (fields F1, F2, ...)      *)
@@ -31,7 +35,7 @@ FloatKinds == {"float32", "float64"}
 NumKinds   == IntKinds \cup UintKinds \cup FloatKinds
 KeyLeaves  == {"bool", "int8", "int64", "uint16", "uint64", "string", "uid", "ctime"}
 OtherLeaves == {"bytes", "time", "bigint", "pbigint", "bigfloat", "apd", "dfloat", "url", "media", "iface", "float32", "float64",
-                "int16", "int32", "int", "uint8", "uint32", "uint"}
+                "int16", "int32", "int", "uint8", "uint32", "uint", "node", "edge"}
 Leaves == KeyLeaves \cup OtherLeaves
 
 Leaf(k) == [k |-> k]
@@ -67,8 +71,13 @@ IsEmptyVal(t, vc) ==
     [] t.k = "iface" -> FALSE              \* always holds a value in the enumeration
     [] OTHER -> FALSE
 
+(* A node is a container (value, children, end); so is an edge: the rules   *)
+(* and both decoders close it with an end-container event after its three  *)
+(* components.                                                             *)
 Shape(t, vc) ==
-  CASE t.k \in Leaves -> << LeafEvent(t.k) >>
+  CASE t.k = "node" -> << "node", "int", "int", "string", "end" >>
+    [] t.k = "edge" -> << "edge", "string", "int", "int", "end" >>
+    [] t.k \in Leaves -> << LeafEvent(t.k) >>
     [] t.k \in {"slice", "array"} ->
          IF t.e.k \in NumKinds \cup {"bool"}
          THEN << "arr:" \o ArrayTypeOf(t.e.k) >>
